@@ -216,6 +216,10 @@ def enumerate_injections(ir, uni, kinds=None):
                 # three lengths: the simulator datatypes pick the way they
                 # reject by the length of the text
                 bad = ["!bad", "!bad1", "!bad12"][n % 3]
+            elif bad is not None and G.MORE_INVALID.get(ln["dt"]) \
+                    and n % 2:
+                more = G.MORE_INVALID[ln["dt"]]
+                bad = more[(n // 2) % len(more)]
             if "bad-value" in kinds and bad is not None:
                 out.append({"kind": "bad-value", "variant": 0, "url": url,
                             "op": "replace", "idx": idx,
